@@ -22,7 +22,9 @@ CLAUSES = (
     'the evaluated string is written only by set_conditional_expr from the '
     'constant template; satisfy_me sets only known, currently unsatisfied '
     'keys; unset_naturally_satisfied leaves forced satisfaction alone; '
-    'pre-initial dependencies are satisfied at construction. Not decided: '
+    'pre-initial dependencies are satisfied at construction. '
+    'TaskTrigger identity (__hash__/__eq__) covers every field set by __init__. '
+    'Not decided: '
     'truth-table equality for generated expressions (runtime strings).')
 
 PR = 'prerequisite'
